@@ -493,6 +493,9 @@ def compare_calls(exp, calls):
 def oracle(case, out):
     c = sexp.loads(case)
     head = c[0]
+    if head in (b'fix', b'has') and 'unknown case' in out:
+        # `./check C07 --replay` runs every case on the first harness bin; fixture cases belong to c07_run
+        out = engine.run_one(engine.harness_bin('c07_run'), case)
     if head == b'has':
         o = sexp.loads(out)
         exp = None
